@@ -17,3 +17,13 @@ claim("C06", "proof",
       "A1: exact equality over the reals, the 1e-12 rounding bound itself is not proved. String targets are covered by "
       "C18's parser contract. Trusted: proxy/shim layer, z3/cvc5.",
       "deductive: symbolic execution of real source + SMT; finite exhaustive table check", "DESIGN.md 3/C06")
+claim("C18", "proof",
+      "parse_units, parse_unitvalue, Units.__str__ and UnitValue.__str__ are executed on token strings: for every string of "
+      "the stated grammar (1-3 factors over the 47 symbols incl. litre/molar families, both separators, any integer exponent, "
+      "any finite double as value) the dimension, base units and SI scale of the result equal the symbol definitions, "
+      "a/b == a.b-1, order does not matter, conflicting base units raise iff present; print->parse round trips; each "
+      "malformed token class (unknown symbol, empty factor, signed/fractional/misplaced exponent, embedded blanks, unseparated "
+      "or non-numeric value) raises on every path. All obligations discharged by SMT with the decision tree exhausted.",
+      "Claim is over the token grammar, not over all strings. Trusted: token-string model of str operations (R4 pseudo "
+      "characters), A5 float(repr(x))==x. Quick tier covers 3-factor strings with separators './'; thorough all four pairs.",
+      "deductive: token-level symbolic execution of real parser/printer + SMT", "DESIGN.md 3/C18")
